@@ -158,6 +158,12 @@ func stripErr(q *qf) *qf {
 
 type quantizer struct {
 	inlineAll bool // inline every in-module bool callee (for matcher algebra), not only those with loops
+	// stop: when non-nil, helper functions are seen through — a call to an in-module function that is
+	// not named here is replaced by what it returns (value provenance) or inlined (bool formula). The
+	// functions named here are the anchors the caller's expected shape talks about; they stay opaque.
+	stop     map[string]bool
+	seeInts  bool // see through in-module helpers for integer-typed results only (matcher algebra)
+	retDepth int
 	p       *Prog
 	nloops  int
 	elemVar map[ssa.Value]string // loaded range element -> bound variable
@@ -182,6 +188,9 @@ func (qz *quantizer) prov(v ssa.Value, d int) string {
 		}
 		return t.Value.ExactString()
 	case *ssa.Call:
+		if rp, ok := qz.retProv(t, 0); ok {
+			return rp
+		}
 		var as []string
 		for _, a := range t.Call.Args {
 			as = append(as, qz.prov(a, d+1))
@@ -194,6 +203,11 @@ func (qz *quantizer) prov(v ssa.Value, d int) string {
 		}
 		return name + "(" + strings.Join(as, ", ") + ")"
 	case *ssa.Extract:
+		if c, ok := t.Tuple.(*ssa.Call); ok {
+			if rp, ok := qz.retProv(c, t.Index); ok {
+				return rp
+			}
+		}
 		return fmt.Sprintf("%s#%d", qz.prov(t.Tuple, d+1), t.Index)
 	case *ssa.UnOp:
 		if t.Op == token.MUL {
@@ -285,6 +299,91 @@ func (qz *quantizer) prov(v ssa.Value, d int) string {
 	return fmt.Sprintf("%T", v)
 }
 
+func (qz *quantizer) maxDepth() int {
+	if qz.inlineAll {
+		return 7
+	}
+	return 3
+}
+
+// seeThrough: the callee is an in-module helper that the current expected shape does not name.
+func (qz *quantizer) seeThrough(callee *ssa.Function) bool {
+	if qz.stop == nil || callee == nil || !qz.p.InModule(callee) || len(callee.Blocks) == 0 {
+		return false
+	}
+	name := callee.Name()
+	return !qz.stop[name]
+}
+
+// retProv: result #k of a call to a helper, described by what the helper returns: the provenance of the
+// returned value with the helper's parameters bound to the call's arguments, provided all returns that
+// do not return a constant (nil, zero — the companions of an error or a false ok) agree on it.
+func (qz *quantizer) retProv(c *ssa.Call, k int) (string, bool) {
+	callee := c.Call.StaticCallee()
+	if callee == nil || qz.retDepth > 3 {
+		return "", false
+	}
+	res := callee.Signature.Results()
+	if k >= res.Len() || isBoolType(res.At(k).Type()) {
+		return "", false
+	}
+	if !qz.seeThrough(callee) {
+		if !(qz.seeInts && qz.p.InModule(callee) && len(callee.Blocks) > 0 && isIntType(res.At(k).Type())) {
+			return "", false
+		}
+	}
+	saved := map[ssa.Value]string{}
+	had := map[ssa.Value]bool{}
+	for i, prm := range callee.Params {
+		if i < len(c.Call.Args) {
+			if old, ok := qz.elemVar[prm]; ok {
+				saved[prm], had[prm] = old, true
+			}
+		}
+	}
+	// bind after computing all argument descriptions (arguments are caller values)
+	descs := make([]string, len(callee.Params))
+	for i := range callee.Params {
+		if i < len(c.Call.Args) {
+			descs[i] = qz.prov(c.Call.Args[i], 1)
+		}
+	}
+	for i, prm := range callee.Params {
+		if i < len(c.Call.Args) {
+			qz.elemVar[prm] = descs[i]
+		}
+	}
+	qz.retDepth++
+	set := map[string]bool{}
+	for _, b := range callee.Blocks {
+		ret, ok := b.Instrs[len(b.Instrs)-1].(*ssa.Return)
+		if !ok || k >= len(ret.Results) {
+			continue
+		}
+		if _, isConst := ret.Results[k].(*ssa.Const); isConst {
+			continue
+		}
+		set[qz.prov(ret.Results[k], 1)] = true
+	}
+	qz.retDepth--
+	for _, prm := range callee.Params {
+		delete(qz.elemVar, prm)
+		if had[prm] {
+			qz.elemVar[prm] = saved[prm]
+		}
+	}
+	if len(set) != 1 {
+		return "", false
+	}
+	for s := range set {
+		if strings.HasPrefix(s, "phi:") || s == "local" {
+			return "", false
+		}
+		return s, true
+	}
+	return "", false
+}
+
 // boolOf: formula of a bool-typed SSA value in the current phi environment.
 func (qz *quantizer) boolOf(v ssa.Value, phis map[*ssa.Phi]*qf) *qf {
 	switch t := v.(type) {
@@ -301,6 +400,20 @@ func (qz *quantizer) boolOf(v ssa.Value, phis map[*ssa.Phi]*qf) *qf {
 	case *ssa.UnOp:
 		if t.Op == token.NOT {
 			return qNot(qz.boolOf(t.X, phis))
+		}
+	case *ssa.Extract:
+		// a bool component of a helper's result tuple
+		if c, ok := t.Tuple.(*ssa.Call); ok {
+			if callee := c.Call.StaticCallee(); callee != nil && qz.p.InModule(callee) && qz.depth < qz.maxDepth() {
+				if hasLoop(callee) || qz.inlineAll || qz.seeThrough(callee) {
+					qz.depth++
+					sub := qz.funcFormulaWith(callee, t.Index, c.Call.Args)
+					qz.depth--
+					if sub != nil {
+						return sub
+					}
+				}
+			}
 		}
 	case *ssa.BinOp:
 		if isBoolType(t.X.Type()) && (t.Op == token.EQL || t.Op == token.NEQ) {
@@ -348,9 +461,9 @@ func (qz *quantizer) boolOf(v ssa.Value, phis map[*ssa.Phi]*qf) *qf {
 				}
 			}
 		}
-		if callee := t.Call.StaticCallee(); callee != nil && qz.p.InModule(callee) && qz.depth < 3 {
+		if callee := t.Call.StaticCallee(); callee != nil && qz.p.InModule(callee) && qz.depth < qz.maxDepth() {
 			// inline the callee's own formula when it contains loops (quantifiers); otherwise an atom
-			if hasLoop(callee) || (qz.inlineAll && isBoolType(t.Type())) {
+			if hasLoop(callee) || ((qz.inlineAll || qz.seeThrough(callee)) && isBoolType(t.Type())) {
 				qz.depth++
 				sub := qz.funcFormulaWith(callee, 0, t.Call.Args)
 				qz.depth--
